@@ -52,7 +52,7 @@ class Check(HCheck):
         # pure insertion-order sweeps: every sibling-tree shape the sets can form
         core = [A, Ax, Ab, Az, Axy, Aw, Bb]
         sp.append(Space(Cfg("never"), [al.page(u, i % 3 == 0) for i, u in enumerate(core)], 6 if thorough else 5, name="order/core"))
-        ll = al.long_lrus((75, 148, 149, 3, 74, 223) if thorough else (75, 148, 149, 74, 3))
+        ll = al.long_lrus((75, 148, 149, 3, 74, 223, 222) if thorough else (75, 148, 149, 74, 222, 3))
         sp.append(Space(Cfg("never"), [al.page(u, i % 2 == 0) for i, u in enumerate(ll)], 6 if thorough else 5, name="order/long"))
         vl = [A + L.long_stem(n, f) for n, f in ((700, b"a"), (2200, b"a"), (2200, b"b"))]
         sp.append(Space(Cfg("never"), [al.page(u, i % 2 == 0) for i, u in enumerate(vl)] + [al.page(vl[0] + b"p:k|", True), al.links((vl[1], vl[2]))], 4 if thorough else 3, name="order/very-long"))
